@@ -1,10 +1,11 @@
 # C17 — derived generators are deterministic, valid, distinct, free of known relations
 import hashlib
+import itertools
 from props.util import *
 from props import wire
 
 TRUSTED = BASE_TRUSTED + ["distinctness / seed dependence / difference from g are properties of SHA-512 outputs: established by kernel computation for concrete seeds (Properties/C17.v) and observed on the implementation, never assumed",
-                          "ristretto: SHAKE-256 (Python hashlib, independent implementation) and dalek's from_uniform_bytes are the reference; the point map itself is not modelled"]
+                          "ristretto: SHAKE-256 and the Elligator map from_uniform_bytes are modelled in Gallina (Model/Keccak.v, Model/Ristretto.v) and tied by correspondence; Python hashlib + dalek's own from_uniform_bytes are a second, independent reference in the battery"]
 RULE = ("Ctx::generators for seeds '', short, 1 kB and counts 0..64 (quick) / 2000 (thorough) at 2048 bits, 0..300 at 62 bits and on "
         "small sets where the `< 2` retry branch is reachable: every list equals the Gallina derivation (SHA-512 over seed||'ggen'||index||count "
         "with pairs appended on retries, mod p, squared); battery: prefix stability, membership via decode, distinctness and "
@@ -12,10 +13,32 @@ RULE = ("Ctx::generators for seeds '', short, 1 kB and counts 0..64 (quick) / 20
         "dalek from_uniform_bytes, distinct, decodable, non-identity")
 
 
+def ref_generators(ctx, n, seed):
+    """The documented derivation, recomputed with hashlib: per index i = 1..n, buffer = seed || "ggen", per attempt
+    (count from 1) the pair (i, count) as two u64 LE is APPENDED, e = int(SHA-512(buffer)) mod p (LE for num-bigint, BE for
+    malachite), g = e^2 mod p, accepted if g >= 2."""
+    P_, q_, g_ = pq(ctx)
+    order = "little" if ctx.startswith("B") else "big"
+    out = []
+    for i in range(1, n + 1):
+        buf = seed + b"ggen"
+        count = 0
+        while True:
+            count += 1
+            buf += i.to_bytes(8, "little") + count.to_bytes(8, "little")
+            e = int.from_bytes(hashlib.sha512(buf).digest(), order) % P_
+            g = pow(e, 2, P_)
+            if g >= 2:
+                out.append(g)
+                break
+    return out
+
+
 def run(env):
     r = env.rng
     cases = []
-    seeds = ["x:", "x:73656564", hexb(r.randbytes(1024))]
+    # seeds: empty, ASCII, byte strings that are not valid UTF-8 (a digest used as seed), 1 kB random
+    seeds = ["x:", "x:73656564", "x:ff", "x:fe", "x:c328a0a1", hexb(r.randbytes(1024))]
     plan = []
     for fl in "BM":
         for pstr, counts in (("23", [0, 1, 5, 40]), ("47", [30]), ("2039", [0, 3, 200 if not env.quick else 60]), (str(P62), [0, 1, 2, 300 if not env.quick else 100]),
@@ -44,6 +67,12 @@ def run(env):
         if big and (len(set(vals)) != len(vals) or g_ in vals):
             env.violation("derived generators not pairwise distinct / equal to the standard generator on %s" % ctx, {"kind": "battery", "case": c})
         byk.setdefault((ctx, c["args"][1]), []).append(o)
+        if c["_n"] <= 300:
+            ref = ref_generators(ctx, c["_n"], wire.unhx(c["args"][1]))
+            if vals != ref:
+                k = next((i for i, (a, b) in enumerate(zip(vals, ref)) if a != b), min(len(vals), len(ref)))
+                env.violation("generators(%d, seed=%s) on %s differ from the documented SHA-512 derivation at index %d" % (c["_n"], c["args"][1][:24], ctx, k),
+                              {"kind": "battery", "case": c, "out": o[:k + 1], "reference": [str(x) for x in ref[:k + 1]]})
     for (ctx, sd), lists in byk.items():
         lists.sort(key=len)
         for a, b in zip(lists, lists[1:]):
@@ -51,16 +80,18 @@ def run(env):
                 env.violation("generators are not prefix-stable on %s" % ctx, {"kind": "battery", "case": {"ctx": ctx, "op": "generators", "args": [str(len(b)), sd]}})
     for ctx in {c["ctx"] for c in cases}:
         big = ctx.endswith("2048") or int(ctx.split(":")[1]) > 2 ** 60
-        ls = [byk[(ctx, sd)][-1] for sd in seeds if (ctx, sd) in byk]
-        if big and len(ls) >= 2 and ls[0] and ls[1] and ls[0][:1] == ls[1][:1]:
-            env.violation("different seeds give the same first generator on %s" % ctx, {"kind": "battery", "case": {"ctx": ctx}})
+        ls = [(sd, [l for l in byk[(ctx, sd)] if l][-1]) for sd in seeds if (ctx, sd) in byk and any(byk[(ctx, sd)])]
+        for (sa, la), (sb_, lb) in itertools.combinations(ls, 2):
+            if big and la[:1] == lb[:1]:
+                env.violation("seeds %s and %s give the same first generator on %s" % (sa[:20], sb_[:20], ctx),
+                              {"kind": "battery", "case": [{"ctx": ctx, "op": "generators", "args": ["1", sa]}, {"ctx": ctx, "op": "generators", "args": ["1", sb_]}]})
     # determinism in a fresh process
     for c, o in list(zip(cases, outs))[:: max(1, len(cases) // 6)]:
         if env.harness([c])[0] != o:
             env.violation("generators differ between processes on %s" % c["ctx"], {"kind": "battery", "case": c})
     fails = env.tie(items, "C17", shard=6)
     # ristretto against SHAKE-256 (hashlib) + dalek's from_uniform_bytes
-    for sd in (b"", b"seed", r.randbytes(1024)):
+    for sd in (b"", b"seed", b"\xff", r.randbytes(1024)):
         n = 40 if env.quick else 2000
         o = env.harness([{"ctx": "R", "op": "generators", "args": [str(n), hexb(sd)], "tag": "ristretto"}])[0]
         stream = hashlib.shake_256(sd).digest(64 * n)
